@@ -81,9 +81,15 @@ def run_scripted(inv, method, args, script):
     return out
 
 
-def replay_readonly(family, method, args, script, variant, check):
+def replay_readonly(family, method, args, script, variant, check, prior=None, script_skip=0):
     inv = make_inverter(family, variant)
-    out = run_scripted(inv, method, list(args), list(script))
+    script = list(script)
+    if prior:
+        # the history of the witness: an earlier write through the public API on the same object (its own outcomes are
+        # the first script_skip entries of the script)
+        run_scripted(inv, prior["method"], list(prior["args"]), script[:script_skip])
+        script = script[script_skip:]
+    out = run_scripted(inv, method, list(args), script)
     if check.startswith("C09_only_InverterError"):
         out["violates"] = out["raised"] is not None and not out["is_inverter_error"]
     elif check.startswith("C09_only_documented_exceptions"):
